@@ -157,7 +157,7 @@ class Run:
         import re as _re
         for k in self.known:
             m = k.get("match", {})
-            ok = all(signature.get(a) == b for a, b in m.items())
+            ok = all((signature.get(a) in b) if isinstance(b, list) else (signature.get(a) == b) for a, b in m.items())
             if ok and k.get("requires_features"):
                 ok = set(k["requires_features"]) <= set(signature.get("features", []))
             if ok and k.get("prql_regex"):
